@@ -222,6 +222,7 @@ func checkC08(e *RunEnv) *CheckResult {
 	spec := &Spec{
 		Seeds: []Seed{{"S2", seedS2()}, {"S3", seedS3()}, {"chain12", seedChain(12)}, {"S4", seedS4()},
 			{"percent-dir", append(seedS1(), Write("p%sq/x", "x v1\n"), Write("é/y z", "y\n"), Run("add", "p%sq", "é"), Run("commit", "-m", "c2"), Write("p%sq/x", "x v2\n"), Run("add", "p%sq"), Run("commit", "-m", "c3"))},
+			{"new-dir-later", append(seedS1(), Write("d2/p", "p\n"), Write("d2/q/r", "r\n"), Run("add", "d2"), Run("commit", "-m", "c2 introduces d2"), Write("d2/never-tracked", "nt\n"), Write("d2/q/never-tracked", "nt\n"))},
 			{"deep-dir", append(seedS1(), Write("lib/core/util/a.txt", "a1\n"), Write("lib/z.txt", "z1\n"), Run("add", "lib"), Run("commit", "-m", "c2"), Write("lib/core/util/a.txt", "a2\n"), Run("add", "lib"), Run("commit", "-m", "c3"))}},
 		Depth: e.pick(3, 5),
 		Steps: func(n *Node) []Step {
@@ -280,6 +281,12 @@ func checkC08(e *RunEnv) *CheckResult {
 				// the tracked file a replaced by a directory that holds a never-tracked file
 				if _, ok := a.W["a"]; ok {
 					steps = append(steps, Write("a/u", "never tracked, inside a directory named like a tracked file\n"))
+				}
+				// a never-tracked file inside each tracked directory (the directory may be absent from the target commit)
+				for _, d := range []string{"d", "lib", "p%sq", "d2"} {
+					if _, ok := a.W[d+"/never-tracked"]; !ok && hasDirOnDisk(a, d) {
+						steps = append(steps, Write(d+"/never-tracked", "never tracked\n"))
+					}
 				}
 				if _, ok := a.W["u"]; !ok {
 					steps = append(steps, Write("u", "untracked\n"), Write("a.tmp", "a never-tracked file next to a\n"))
